@@ -31,8 +31,17 @@ type UFApp struct {
 	Val  [2]string
 }
 
+// FPApp: an application of a harness objective ("h.*") in the bit-precise
+// float encodings; Val and Args are the defined symbols of the terms
+type FPApp struct {
+	Name string
+	Val  string
+	Args []string
+}
+
 type Script struct {
 	UFApps   []UFApp
+	FPApps   []FPApp
 	Mode     Mode
 	Text     string            // declarations + definitions + assertions
 	Vars     []*term.Term      // input variables appearing in the script
@@ -532,6 +541,23 @@ func Build(mode Mode, asserts []*term.Term) *Script {
 			n := fmt.Sprintf("t!%d", t.ID)
 			p.names[t.ID] = n
 			fmt.Fprintf(&body, "(define-fun %s () %s %s)\n", n, p.sortName(t.Sort), e)
+		}
+	}
+	if mode.Float != "real" {
+		for _, t := range term.Topo(asserts...) {
+			if t.Op == "uf" && strings.HasPrefix(t.Name, "h.") && t.Sort.K == term.KFloat {
+				app := FPApp{Name: strings.TrimPrefix(t.Name, "h."), Val: p.names[t.ID]}
+				ok := true
+				for _, x := range t.Args {
+					if x.Sort.K != term.KFloat {
+						ok = false
+					}
+					app.Args = append(app.Args, p.names[x.ID])
+				}
+				if ok {
+					sc.FPApps = append(sc.FPApps, app)
+				}
+			}
 		}
 	}
 	for _, t := range p.sqrts {
